@@ -8,6 +8,7 @@ mod isolate;
 mod c01;
 mod c02;
 mod c03;
+mod c07;
 mod c08;
 mod c14;
 mod c15;
@@ -36,6 +37,7 @@ fn main() {
         "c14-drive" => c14::drive(rest),
         "c14-replay" => c14::replay(),
         "c15-replay" => c15::replay(rest),
+        "c07-replay" => c07::replay(),
         "c08-replay" => c08::replay(),
         _ => {
             eprintln!("unknown sub-command {cmd:?} {rest:?}");
